@@ -185,7 +185,10 @@ struct QHarness {
 		for(int p = 0; p < NPROTO; ++p) k += fmt("%zu,", listeners[p].size());
 		k += "S:";
 		for(int i = 0; i < 3; ++i) k += slot[i] < 0 ? std::string("e,") : (aliveL[slot[i]] ? fmt("%d.%d,", protoOf[slot[i]], (int)(std::find(listeners[protoOf[slot[i]]].begin(), listeners[protoOf[slot[i]]].end(), slot[i]) - listeners[protoOf[slot[i]]].begin())) : std::string("d,"));
-		size_t fl = 0; for(auto it = q->freeList.begin(); it != q->freeList.end(); ++it) ++fl;
+		size_t fl = 0;
+#ifndef VERIF_NO_PRIVATE
+		for(auto it = q->freeList.begin(); it != q->freeList.end(); ++it) ++fl;
+#endif
 		k += fmt("a%d|F%zu", adds % 3, fl);
 		return k;
 	}
